@@ -218,7 +218,27 @@ def apply_resultpath(input, result, path="$"):
             "The value of \"ResultPath\" MUST NOT begin with \"$$\""
         )
 
-    matches = re.findall(r"[^$.[\]']+", path)  # Regex to split the reference paths
+    """
+    Split the reference path into member names and array indices. A member
+    name written in bracket notation, ['name'], is taken literally: it may
+    contain the characters that otherwise separate the steps of a path.
+    """
+    def split(text):
+        return re.findall(r"[^$.[\]']+", text)  # Regex to split the reference paths
+
+    matches = []
+    rest = path
+    while "['" in rest:
+        start = rest.index("['")
+        end = rest.find("']", start + 2)
+        if end < 0:
+            raise ResultPathMatchFailure(
+                "Unterminated member name in ResultPath {}".format(path)
+            )
+        matches += split(rest[:start])
+        matches.append(rest[start + 2:end])
+        rest = rest[end + 2:]
+    matches += split(rest)
     return update_path(input, matches, result)
 
 def evaluate_payload_template(input, context, template):
